@@ -122,7 +122,11 @@ JudgeBuild(e, mb, mcontent, x) ==
         tabled == tableBase /\ ~t.single
         md5bad == IF tabled THEN {i \in 1..t.n : t.md5[i] # e.md5s[i]} ELSE {}
         dsbad  == IF tabled THEN {i \in 1..t.n : e.parts[i].ok /\ t.ds[i] # e.parts[i].len} ELSE {}
-        dmbad  == IF tabled /\ t.entry = 40 THEN {i \in 1..t.n : e.parts[i].ok /\ t.dmd5[i] # e.parts[i].md5} ELSE {}
+        \* an all-zero decoded-data checksum means "not recorded"; the encoder has no key, so for an
+        \* encrypted chunk that is the one truthful thing it can write
+        NotRecorded(i) == e.firsts[i] = 69 /\ t.dmd5[i] = [k \in 1..16 |-> 0]
+        dmbad  == IF tabled /\ t.entry = 40
+                  THEN {i \in 1..t.n : e.parts[i].ok /\ t.dmd5[i] # e.parts[i].md5 /\ ~NotRecorded(i)} ELSE {}
         DsWhy(i) == IF Known("F01c") /\ e.firsts[i] = 69 /\ t.ds[i] = t.cs[i] - 16 THEN "F01c"
                     ELSE IF Known("F01e") /\ t.n = n /\ mb.chunks[i].kind = "parsed" /\ t.ds[i] = t.cs[i] - 1 THEN "F01e"
                     ELSE IF ~ident /\ identDev /\ i \in br THEN "broken"
@@ -158,12 +162,13 @@ Step ==
         /\ UNCHANGED <<b, inline, content>>
      ELSE
         LET x == Apply(b, e)
-            argsok == IsAdd(e) => e.dlen = e.len /\ (inline => Len(e.data) = e.len)
+            argsok == IsAdd(e) => /\ e.dlen = e.len
+                                  /\ (inline /\ ~NeverReturned(e)) => Has(e, "data") /\ Len(e.data) = e.len
             dG     == NeverReturned(e) /\ DevF01g(e, b.cs)
             resok  == e.res = x.res \/ (x.may /\ e.res \in {"ok", "err"}) \/ dG
         IN /\ b' = IF e.res = "ok" THEN x.st ELSE b
            /\ phase' = IF e.res = "ok" THEN "open" ELSE "failed"
-           /\ content' = IF e.res = "ok" /\ IsAdd(e) /\ inline THEN content \o e.data ELSE content
+           /\ content' = IF e.res = "ok" /\ IsAdd(e) /\ inline /\ Has(e, "data") THEN content \o e.data ELSE content
            /\ seq' = e.seq
            /\ viol' = IF resok /\ argsok /\ e.seq = seq + 1 THEN viol ELSE Flag(viol, l)
            /\ nviol' = IF resok /\ argsok /\ e.seq = seq + 1 THEN nviol ELSE nviol + 1
